@@ -83,7 +83,36 @@ func (u *Unit) Declare(name string, so Sort) Term {
 	}
 	u.declared[name] = so
 	u.emit(fmt.Sprintf("(declare-const %s %s)", name, so))
+	u.typingAxiom(name, so)
 	return Term{name, so}
+}
+
+// typingAxiom states the typing invariant of integer-valued heap components (mode int):
+// every version of such a component only holds values within the range of its Go type.
+func (u *Unit) typingAxiom(name string, so Sort) {
+	if u.Mode != ModeInt {
+		return
+	}
+	base := name
+	for _, sep := range []string{"@", ".havoc!", ".hv!"} {
+		if i := strings.Index(base, sep); i >= 0 {
+			base = base[:i]
+		}
+	}
+	ii, ok := compRanges[base]
+	if !ok {
+		return
+	}
+	lo, hi := BigLit(ii.min()).S, BigLit(ii.max()).S
+	switch {
+	case so == SInt:
+		u.emit(fmt.Sprintf("(assert (and (<= %s %s) (<= %s %s)))", lo, name, name, hi))
+	case so == ArrSort(SInt, SInt):
+		u.emit(fmt.Sprintf("(assert (forall ((tr Int)) (! (and (<= %s (select %s tr)) (<= (select %s tr) %s)) :pattern ((select %s tr)))))", lo, name, name, hi, name))
+	case so.IsArray() && so.ElemSort().IsArray() && so.ElemSort().ElemSort() == SInt:
+		ks := so.ElemSort().IdxSort()
+		u.emit(fmt.Sprintf("(assert (forall ((tr Int) (tj %s)) (! (and (<= %s (select (select %s tr) tj)) (<= (select (select %s tr) tj) %s)) :pattern ((select (select %s tr) tj)))))", ks, lo, name, name, hi, name))
+	}
 }
 
 func (u *Unit) DeclareFun(name string, args []Sort, res Sort) {
